@@ -62,17 +62,14 @@ Example c06_witness_sealed_position_after_empty_block :
 Proof. vm_compute. reflexivity. Qed.
 
 (* ------------------------------------------------------------------ histories WITH restarts *)
-(* The known classes, as booleans of the model state at the moment of a restart:
+(* The known class, as a boolean of the model state at the moment of a restart:
      id_drift c s   (model/Engine.v)      a restart would renumber some written block
-     stale_tail s   (proofs/EnginePos.v)  a persisted tail position names a block that holds no
-                                          entries (provisional position written by an empty poll on
-                                          an empty writer block): a restart does not rebuild that
-                                          block, read_next then restarts from the first block
-                                          (everything delivered again), batch_read parks behind
-                                          the last block (entries lost), the count is rebuilt as
-                                          if nothing had been consumed.
-   restart_known c s = id_drift c s || stale_tail s;  outside_known v s ops evaluates it at every
-   OReopen of the run.  C06_full restricted to such histories: *)
+   outside_known v s ops evaluates it at every OReopen of the run.  (Until fix 5104140 there was a
+   second class, "stale provisional tail position": an empty poll on an EMPTY writer block persisted
+   a tail position naming a block that a restart does not rebuild — everything delivered again
+   by read_next, unread entries skipped by batch_read.  Since the repair no reachable state has a
+   stale position: c06_no_stale_position below; the predicate stale_tail_b stays extracted and is
+   evaluated by the check as a regression guard.)  C06_full restricted to such histories: *)
 Theorem c06_full_outside_known : forall (c : Cfg) (be : backend) (ops : list op),
   cfg_ok c -> Forall (op_ok_r c) ops ->
   N.of_nat (length (offered_all ops)) <= u64_max -> sum_len (offered_all ops) <= u64_max ->
@@ -82,13 +79,23 @@ Proof. intros c be ops Hc _ HB HBb Ho. exact (restart_from_init c be ops Hc Ho H
 
 (* the invariant behind it, along every such history (any number of restarts): per topic, with the
    pending hydration carried out in either read path's flavour [x], the per-topic invariant TInv,
-   the POSITION INVARIANT P3 (the persisted position denotes exactly the unread entries, or is a
-   provisional / dead tail position) and agreement with the queue ledger; plus the disk invariants *)
+   the POSITION INVARIANT P3 and PG (the persisted position denotes exactly the unread entries)
+   and agreement with the queue ledger; plus the disk invariants *)
 Theorem c06_invariant_with_restarts : forall (c : Cfg) (be : backend) (ops : list op),
   cfg_ok c -> N.of_nat (length (offered_all ops)) <= u64_max -> sum_len (offered_all ops) <= u64_max ->
   outside_known (env_of c Strict be) init ops = true ->
-  exists B' Bb', G c (exec (env_of c Strict be) init ops) (ledger_run [] (trace (env_of c Strict be) init ops)) B' Bb'.
+  exists B' Bb', G c (exec (env_of c Strict be) init ops) (ledger_run [] (trace (env_of c Strict be) init ops)) B' Bb' /\
+                 PG c (exec (env_of c Strict be) init ops).
 Proof. exact G_from_init. Qed.
+
+(* no reachable state (any history, any number of restarts outside block-id drift) has a stale
+   persisted position: every persisted tail position names a block that holds entries *)
+Theorem c06_no_stale_position : forall (c : Cfg) (be : backend) (ops : list op),
+  cfg_ok c -> N.of_nat (length (offered_all ops)) <= u64_max -> sum_len (offered_all ops) <= u64_max ->
+  outside_known (env_of c Strict be) init ops = true ->
+  forall t p, ts_index (get_ts (exec (env_of c Strict be) init ops) t) = Some p ->
+              stale_p (memne (get_ts (exec (env_of c Strict be) init ops) t)) p = false.
+Proof. exact stale_tail_never. Qed.
 
 (* a restart at the end of such a history: per topic the stream, the unread entries (whichever
    read path hydrates first, [x]/[y]) and the reported count are what they were *)
@@ -103,7 +110,7 @@ Theorem c06_restart_preserves_cursor : forall (c : Cfg) (be : backend) (ops : li
     cnt (get_ts (reopen c s) t) = N.of_nat (length (unread c (nrm x (get_ts (reopen c s) t)))).
 Proof. exact restart_preserves_cursor. Qed.
 
-(* C06_full itself is FALSE for the model (and the code): two independent mechanisms *)
+(* C06_full itself is FALSE for the model (and the code): block-id drift *)
 Definition t4 : topic := {| t_id := 4; t_nlen := 2 |}.
 Definition t5 : topic := {| t_id := 5; t_nlen := 2 |}.
 Definition t6 : topic := {| t_id := 6; t_nlen := 2 |}.
@@ -113,8 +120,8 @@ Definition t8 : topic := {| t_id := 8; t_nlen := 2 |}.
 Definition drift_ops : list op :=
   [OAppend t1 (e 0 10); OAppend t2 (e 1 10); OAppend t3 (e 2 10); OAppend t4 (e 3 10); OAppend t5 (e 4 10);
    OAppend t6 (e 5 10); OAppend t7 (e 6 10); OAppend t8 (e 7 5000); OAppend t8 (e 8 100); ORead t8 true; OCount t8].
-(* corpus/C06/staletail.case: both entries consumed; after a restart a rejected append creates an
-   empty writer block, an empty poll persists a provisional position on it; next restart *)
+(* corpus/C06/staletail.case (regression, wrong before fix 5104140): both entries consumed; after a
+   restart a rejected append creates an empty writer block, an empty poll; next restart *)
 Definition stale_ops : list op :=
   [OAppend t1 (e 0 10); OAppend t1 (e 1 10); ORead t1 true; ORead t1 true; OReopen; OAppend t1 (e 2 20000); ORead t1 true].
 
@@ -127,33 +134,32 @@ Theorem c06_refuted_id_drift :
   c15_ok (trace (env_of small_cfg Strict Fd) init (drift_ops ++ [OReopen; OCount t8; ORead t8 true])) = false.
 Proof. vm_compute. repeat split; reflexivity. Qed.
 
-Theorem c06_refuted_stale_tail :
-  id_drift small_cfg (exec (env_of small_cfg Strict Fd) init stale_ops) = false /\
-  stale_tail (exec (env_of small_cfg Strict Fd) init stale_ops) = true /\
+(* regression witnesses of fix 5104140: the empty poll no longer persists a position on the empty
+   block; after the restart nothing is delivered again (was: count 2, both entries again) ... *)
+Example c06_stale_tail_repaired :
+  stale_tail (exec (env_of small_cfg Strict Fd) init stale_ops) = false /\
   map snd (trace (env_of small_cfg Strict Fd) init (stale_ops ++ [OReopen; OCount t1; ORead t1 true; ORead t1 true; ORead t1 true]))
-  = [ROk; ROk; REntry (out_of (e 0 10)); REntry (out_of (e 1 10)); ROk; RErr EInvalidInput; RNone; ROk; RNum 2;
-     REntry (out_of (e 0 10)); REntry (out_of (e 1 10)); RNone] /\
-  c01_ok (trace (env_of small_cfg Strict Fd) init (stale_ops ++ [OReopen; OCount t1; ORead t1 true])) = false /\
-  c15_ok (trace (env_of small_cfg Strict Fd) init (stale_ops ++ [OReopen; OCount t1; ORead t1 true])) = false.
+  = [ROk; ROk; REntry (out_of (e 0 10)); REntry (out_of (e 1 10)); ROk; RErr EInvalidInput; RNone; ROk; RNum 0;
+     RNone; RNone; RNone] /\
+  outside_known (env_of small_cfg Strict Fd) init (stale_ops ++ [OReopen; OCount t1; ORead t1 true]) = true.
 Proof. vm_compute. repeat split; reflexivity. Qed.
 
-(* the batch-read flavour of the same mechanism LOSES an entry: rejected first append, empty poll,
-   a large append retires the empty block, restart, batch read returns nothing while one entry is unread *)
-Example c06_stale_tail_batch_read_loses :
+(* ... and the batch-read flavour no longer loses the entry (was: REntries [], RNone, count 1) *)
+Example c06_stale_tail_batch_read_repaired :
   let ops := [OAppend t1 (e 0 20000); ORead t1 true; OAppend t1 (e 1 5000)] in
-  stale_tail (exec (env_of small_cfg Strict Fd) init ops) = true /\
+  stale_tail (exec (env_of small_cfg Strict Fd) init ops) = false /\
   map snd (trace (env_of small_cfg Strict Fd) init (ops ++ [OReopen; OCount t1; OBatchRead t1 100000 true None; ORead t1 true; OCount t1]))
-  = [RErr EInvalidInput; RNone; ROk; ROk; RNum 1; REntries []; RNone; RNum 1].
+  = [RErr EInvalidInput; RNone; ROk; ROk; RNum 1; REntries [out_of (e 1 5000)]; RNone; RNum 0].
 Proof. vm_compute. split; reflexivity. Qed.
 
 Theorem c06_full_refuted : ~ C06_full.
 Proof.
-  intros H. specialize (H small_cfg Fd (stale_ops ++ [OReopen; OCount t1; ORead t1 true]) small_cfg_ok).
-  assert (Hok : Forall (op_ok_r small_cfg) (stale_ops ++ [OReopen; OCount t1; ORead t1 true])) by (repeat constructor).
-  destruct (H Hok) as (H1 & _). destruct c06_refuted_stale_tail as (_ & _ & _ & H2 & _). congruence.
+  intros H. specialize (H small_cfg Fd (drift_ops ++ [OReopen; OCount t8; ORead t8 true]) small_cfg_ok).
+  assert (Hok : Forall (op_ok_r small_cfg) (drift_ops ++ [OReopen; OCount t8; ORead t8 true])) by (repeat constructor).
+  destruct (H Hok) as (H1 & _). destruct c06_refuted_id_drift as (_ & _ & _ & H2 & _). congruence.
 Qed.
 
-(* non-vacuity of the hypothesis: histories with two restarts each that stay outside the known classes *)
+(* non-vacuity of the hypothesis: histories with two restarts each that stay outside the known class *)
 Example c06_outside_known_witness :
   outside_known (env_of small_cfg Strict Mmap) init
      [OBatch t1 []; OAppend t2 (e 0 100); OAppend t3 (e 2 5000); OAppend t3 (e 3 10); OAppend t2 (e 4 3000);
@@ -162,8 +168,7 @@ Example c06_outside_known_witness :
   outside_known (env_of small_cfg Strict Fd) init
      [OAppend t1 (e 0 5000); OAppend t1 (e 1 2000); OAppend t1 (e 2 2000); ORead t1 true; OReopen; OCount t1;
       ORead t1 true; OAppend t1 (e 3 7); OReopen; ORead t1 true; ORead t1 true; ORead t1 true] = true /\
-  outside_known (env_of small_cfg Strict Fd) init (drift_ops ++ [OReopen]) = false /\
-  outside_known (env_of small_cfg Strict Fd) init (stale_ops ++ [OReopen]) = false.
+  outside_known (env_of small_cfg Strict Fd) init (drift_ops ++ [OReopen]) = false.
 Proof. vm_compute. repeat split; reflexivity. Qed.
 
 Check c06_recovery_complete_partial : forall c, 0 < c_hdr c -> 0 < c_block c -> forall nfiles f disk next_id acc,
@@ -186,8 +191,15 @@ Print Assumptions c06_full_outside_known.
 Check c06_invariant_with_restarts : forall (c : Cfg) (be : backend) (ops : list op),
   cfg_ok c -> N.of_nat (length (offered_all ops)) <= u64_max -> sum_len (offered_all ops) <= u64_max ->
   outside_known (env_of c Strict be) init ops = true ->
-  exists B' Bb', G c (exec (env_of c Strict be) init ops) (ledger_run [] (trace (env_of c Strict be) init ops)) B' Bb'.
+  exists B' Bb', G c (exec (env_of c Strict be) init ops) (ledger_run [] (trace (env_of c Strict be) init ops)) B' Bb' /\
+                 PG c (exec (env_of c Strict be) init ops).
 Print Assumptions c06_invariant_with_restarts.
+Check c06_no_stale_position : forall (c : Cfg) (be : backend) (ops : list op),
+  cfg_ok c -> N.of_nat (length (offered_all ops)) <= u64_max -> sum_len (offered_all ops) <= u64_max ->
+  outside_known (env_of c Strict be) init ops = true ->
+  forall t p, ts_index (get_ts (exec (env_of c Strict be) init ops) t) = Some p ->
+              stale_p (memne (get_ts (exec (env_of c Strict be) init ops) t)) p = false.
+Print Assumptions c06_no_stale_position.
 Check c06_restart_preserves_cursor : forall (c : Cfg) (be : backend) (ops : list op), cfg_ok c ->
   outside_known (env_of c Strict be) init (ops ++ [OReopen]) = true ->
   N.of_nat (length (offered_all ops)) <= u64_max -> sum_len (offered_all ops) <= u64_max ->
@@ -201,4 +213,3 @@ Print Assumptions c06_restart_preserves_cursor.
 Check c06_full_refuted : ~ C06_full.
 Print Assumptions c06_full_refuted.
 Print Assumptions c06_refuted_id_drift.
-Print Assumptions c06_refuted_stale_tail.
